@@ -354,6 +354,7 @@ def ob_deque_pair(w, P):
             w.tid = old
     if P.get('il'):
         box = {}
+        w.preconnect(other, (w.pid, 2))
         x.begin()
         w.interleave(lambda: box.__setitem__('A', run(dqA, opA, a)), lambda: res.__setitem__('B', run(dqB, opB, b)),
                      x.s.v_int('at', 0, P.get('max_events', 12)), x.s.v_int('at2', 0, P.get('max_events', 12)), id_a=(w.pid, 1), id_b=(w.pid, 2))
@@ -434,6 +435,7 @@ def ob_index_pair(w, P):
             w.tid = old
     if P.get('il'):
         box = {}
+        w.preconnect(other, (w.pid, 2))
         x.begin()
         w.interleave(lambda: box.__setitem__('A', run(ixA, opA, a)), lambda: res.__setitem__('B', run(ixB, opB, b)),
                      x.s.v_int('at', 0, P.get('max_events', 12)), x.s.v_int('at2', 0, P.get('max_events', 12)), id_a=(w.pid, 1), id_b=(w.pid, 2))
@@ -529,7 +531,8 @@ def ob_persist_kill(w, P):
             x.call(action)
         except Outcome as o:
             rec = list(L.persistent.Deque.fromcache(w.clone_handle(x.c), maxlen=None))
-            cl = list(o.clauses)
+            # (the generic clause about items the call does not address needs the keys the call addresses; here the structure-level clause below says it all)
+            cl = [c_ for c_ in o.clauses if 'not addressed by the interrupted call' not in c_[1]]
             cl.append(('C07,C08,C11', 'after a kill / failed call a bounded Deque holds at most maxlen items', maxlen is None or len(rec) <= maxlen))
             if P.get('files'):
                 # file-backed items: the generic clauses demand every committed row's value file; here only the shape
@@ -575,7 +578,7 @@ def ob_persist_kill(w, P):
         x.call(action)
     except Outcome as o:
         rec = list(L.persistent.Index.fromcache(w.clone_handle(x.c)).items())
-        cl = list(o.clauses)
+        cl = [c_ for c_ in o.clauses if 'not addressed by the interrupted call' not in c_[1]]
         cl.append(('C07,C08,C12', 'after a kill / failed call the Index is the one before or the one after the interrupted call', Or(vals_eq(rec, before), vals_eq(rec, after))))
         raise Outcome(cl)
     return x.result()
@@ -674,6 +677,55 @@ def jobs(tier):
     out.append(dict(id='index.lookup_during_replace', func='ob_index_lookup_replace', params=dict(N=1, policy='none'), tags=['C12'], functions=INDEX_F + ['core.Cache.get'],
                     weight=5))
     return out
+
+
+@directive_aware
+def ob_index_busy_lookup(w, P):
+    """an Index whose cache records statistics (every lookup then needs the write lock) while that lock is busy for the first k
+    attempts: lookups wait and behave like a dictionary -- a present key is found, no Timeout, no KeyError"""
+    x = Ctx(w, P, kinds=('int',), tags=False, key_lo=0, key_hi=2, alive_sym=False, statistics=True, cull_limit=0)
+    for rv in x.s.rowvars:
+        assume(rv['expire_null'].z)
+    L = w.L
+    ix = L.persistent.Index.fromcache(x.c)
+    k = int(x.s.rowvars[0]['key'])
+    v = x.s.rowvars[0]['value']
+    kk = x.s.v_int('busy_k', 1, 2)
+    cnt = [0]
+
+    def hook(con):
+        cnt[0] += 1
+        flag('lock_busy')
+        return bool(kk >= cnt[0])
+    w.set_busy_hook(x.c, hook)
+    how = P['how']
+    x.begin()
+    try:
+        if how == 'getitem':
+            r = ('ok', ix[k])
+        elif how == 'get':
+            r = ('ok', ix.get(k, -7))
+        elif how == 'contains':
+            r = ('ok', k in ix)
+        elif how == 'eq':
+            r = ('ok', ix == {k: v})
+        elif how == 'items':
+            r = ('ok', list(ix.items()))
+    except KeyError:
+        r = ('keyerror', None)
+    except L.core.Timeout:
+        r = ('timeout', None)
+    x.end()
+    if how in ('getitem', 'get'):
+        ok = r[0] == 'ok' and is_num_like(r[1]) and EqR(zv(r[1]), zv(v))
+    elif how == 'contains':
+        ok = r == ('ok', True)
+    elif how == 'eq':
+        ok = r[0] == 'ok' and bool(r[1]) is True
+    else:
+        ok = r[0] == 'ok' and len(r[1]) == 1 and EqR(zv(r[1][0][1]), zv(v))
+    x.add('C12,C14', 'an Index lookup that meets a busy write lock waits and finds the key (%s)' % r[0], ok)
+    return x.result()
 
 
 # ------------------------------------------------------------------ transaction blocks of the persistent types (C06 through C11 / C12)
@@ -780,7 +832,8 @@ def ob_persist_block(w, P):
             x.call(action)
         except Outcome as o:
             rec = recovered()
-            cl = list(o.clauses)
+            # (the generic clause about items the call does not address needs the keys the call addresses; here the structure-level clause below says it all)
+            cl = [c_ for c_ in o.clauses if 'not addressed by the interrupted call' not in c_[1]]
             cl.append(('C07,' + tag, 'a %s transaction block interrupted by a kill took effect completely or not at all' % kind, Or(vals_eq(rec, before), vals_eq(rec, after))))
             raise Outcome(cl)
         return x.result()
@@ -811,6 +864,9 @@ _jobs3 = jobs
 
 def jobs(tier):
     out = _jobs3(tier)
+    for how in ('getitem', 'get', 'contains', 'eq', 'items'):
+        out.append(dict(id='index.busy.%s' % how, func='ob_index_busy_lookup', params=dict(N=1, how=how, policy='none'), tags=['C12', 'C14'], functions=INDEX_F + ['core.Cache.get', 'core.Cache.__getitem__'],
+                        weight=3, must_reach=['lock_busy'] if how in ('getitem', 'get', 'eq', 'items') else []))
     for kind, ops in PERSIST_BLOCKS:
         for N in ({'deque': [2], 'index': [1]} if tier == 'quick' else {'deque': [2, 3], 'index': [1, 2]})[kind]:
             t = 'C11' if kind == 'deque' else 'C12'
